@@ -659,6 +659,31 @@ def f(ctx):
         ctx.note("registrations outside the RFC table (information only): %s" % ", ".join("%s=%s" % (k, regs[k]) for k in extra))
 
 
+@R.clause("C01.g", "option numbers the library has no name for keep their identity: every number created on demand is entered into the enum's member table, so a format registered for it is found again")
+def g_dynamic_members(ctx):
+    """The codec finds an option's format through OptionNumber(n).format, an attribute of the *member object*.  Unknown
+    numbers are created by ExtensibleIntEnum._missing_, which must enter the new member into _value2member_map_
+    unconditionally; an independently written breaking change stopped doing so once the table held 1024 entries, and
+    formats registered for later numbers (set_format) no longer applied: the same bytes decoded to another value."""
+    fi = ctx.prog.func("util.ExtensibleIntEnum._missing_")
+    cfg = cfg_of(fi)
+    p = params(fi)  # (value,) -- cls is skipped
+    stores = [n for n in walk_no_nested(fi.node) if isinstance(n, ast.Assign) and isinstance(n.targets[0], ast.Subscript) and (chain(n.targets[0].value) or "").endswith("._value2member_map_")]
+    rets = [n for n in walk_no_nested(fi.node) if isinstance(n, ast.Return) and n.value is not None]
+    ok = len(stores) == 1 and len(rets) >= 1
+    if ok:
+        st = stores[0]
+        ok = isinstance(st.value, ast.Name) and all(isinstance(r.value, ast.Name) and r.value.id == st.value.id for r in rets) and \
+            isinstance(st.targets[0].slice, ast.Name) and st.targets[0].slice.id == p[-1] and not guard_exprs(cfg, cfg.loc1(st)) and cfg.must_pass(cfg.entry, [cfg.loc1(st)])
+    ctx.ob("_missing_ registers the member it returns under its value, unconditionally", ok, fi, stores[0] if stores else fi.node,
+           construct=stmt_text(stores[0]) if stores else "ExtensibleIntEnum._missing_: registration")
+    sf = ctx.prog.func("numbers.optionnumbers.OptionNumber.set_format")
+    gf = ctx.prog.func("numbers.optionnumbers.OptionNumber._get_format")
+    w = [n for n in walk_no_nested(sf.node) if isinstance(n, ast.Assign) and any(chain(t) == "self._format" for t in n.targets)]
+    r = [n for n in walk_no_nested(gf.node) if isinstance(n, ast.Return) and chain(n.value) == "self._format"]
+    ctx.ob("the format is stored on and read from the member object (self._format)", len(w) == 1 and len(r) == 1 and isinstance(w[0].value, ast.Name) and w[0].value.id == params(sf)[0], sf, w[0] if w else sf.node)
+
+
 F_M = "aiocoap/message.py"
 F_O = "aiocoap/options.py"
 F_T = "aiocoap/optiontypes.py"
@@ -686,3 +711,5 @@ R.seed("C01.e", F_T, "            size_exponent=(as_integer & 0x07),", "        
 R.seed("C01.e", F_T, "        self.value = rawdata.decode(\"utf-8\")", "        self.value = rawdata.decode(\"latin-1\")", "codec mismatch")
 R.seed("C01.f", "aiocoap/numbers/optionnumbers.py", "OptionNumber.URI_PORT.set_format(optiontypes.UintOption)", "OptionNumber.URI_PORT.set_format(optiontypes.StringOption)", "Uri-Port as string")
 R.seed("C01.f", "aiocoap/numbers/optionnumbers.py", "    MAX_AGE = 14\n", "    MAX_AGE = 18\n", "wrong option number")
+
+R.seed("C01.g", "aiocoap/util/__init__.py", "        cls._value2member_map_[value] = new_member\n", "        if len(cls._value2member_map_) < 1024:\n            cls._value2member_map_[value] = new_member\n", "members beyond the 1024th are throw-away objects: set_format on them is lost")
